@@ -120,8 +120,20 @@ class Multiline:
     -------
     self
     """
-    for of in gfa_line.tagnames:
-      self.add(of, gfa_line.get(of), gfa_line.get_datatype(of))
+    # if a tag cannot be merged, the tags merged before it are taken back
+    saved_data = {}
+    for k, v in self._data.items():
+      if isinstance(v, gfapy.FieldArray):
+        v = gfapy.FieldArray(v.datatype, list(v._data))
+      saved_data[k] = v
+    saved_datatype = self._datatype.copy()
+    try:
+      for of in gfa_line.tagnames:
+        self.add(of, gfa_line.get(of), gfa_line.get_datatype(of))
+    except:
+      self._data = saved_data
+      self._datatype = saved_datatype
+      raise
     return self
 
   def _tags(self):
